@@ -82,6 +82,15 @@ func verifHostIn(h *rules.HostRule, hs []*rules.HostRule) bool {
 // verifC02: nh hosts-file rules (1..2 names each) and nn network rules with
 // literal patterns of patLen bytes; a DNS request for a hostname of hostLen bytes.
 func verifC02(nh, nn, patLen, hostLen int) {
+	// hostLen >= 100: the real hash function runs (no summary); names over an alphabet in
+	// which the real djb2 has collisions at this length ("08"/"2z", "0q"/"23")
+	hostAlpha := "zq"
+	rules.VerifHostAlphabet, rules.VerifHostNameLen = "zq", 2
+	if hostLen >= 100 {
+		hostLen -= 100
+		hostAlpha = "zq0238"
+		rules.VerifHostAlphabet, rules.VerifHostNameLen = hostAlpha, hostLen
+	}
 	var hostRules []*rules.HostRule
 	var netRules []*rules.NetworkRule
 	verifScanRules, verifScanIdx = nil, nil
@@ -97,7 +106,7 @@ func verifC02(nh, nn, patLen, hostLen int) {
 		verifScanRules = append(verifScanRules, n)
 		verifScanIdx = append(verifScanIdx, int64(2)<<32|int64(10*i+3))
 	}
-	host := verifString("host", hostLen, "zq")
+	host := verifString("host", hostLen, hostAlpha)
 	dreq := &DNSRequest{Hostname: host, DNSType: verifU16("q.dnstype"), ClientName: verifString("q.client", 1, "ab")}
 
 	if verifBool("q.hasip") {
